@@ -14,7 +14,9 @@ USES = ['fd_write', 'fd_pwrite', 'fd_read', 'fd_pread', 'fd_seek', 'fd_tell', 'f
         # the same path calls with an ABSOLUTE guest path: the path is used as it is, the descriptor must be valid all the same
         'path_open_abs', 'path_filestat_get_abs', 'path_create_directory_abs', 'path_readlink_abs', 'path_unlink_file_abs',
         # transfers with an empty iovec array
-        'fd_write0', 'fd_pwrite0', 'fd_read0', 'fd_pread0']
+        'fd_write0', 'fd_pwrite0', 'fd_read0', 'fd_pread0',
+        # the listing restarted right after the host has moved the directory away
+        'fd_readdir_moved']
 STUBS = ['fd_advise', 'fd_allocate', 'fd_fdstat_set_flags', 'fd_filestat_set_size', 'fd_filestat_set_times', 'path_filestat_set_times', 'path_link']
 NSNAME = {0: 'wasi_snapshot_preview1', 1: 'wasi_unstable'}
 
@@ -25,6 +27,7 @@ class Table:
         self.t = {0: ['std', True, False], 1: ['std', True, False], 2: ['std', True, False], 3: ['preopen', True, False], 4: ['preopen', True, False]}
         self.paths = {}
         self.fresh = True          # no operation yet
+        self.moved = False         # the host has moved "sub" away
         self.failed_open = False      # a path_open that failed after path resolution happened (it must leave no trace in the table)
 
     def live(self, x):
@@ -39,7 +42,7 @@ class Table:
         return 'unissued' if x not in self.t else 'close-failed' if self.limbo(x) else ('live-' + self.t[x][0] if self.t[x][1] else 'closed')
 
     def key(self):
-        return (self.failed_open,) + tuple(sorted((n, v[0], v[1], v[2]) for n, v in self.t.items()))
+        return (self.failed_open, self.moved) + tuple(sorted((n, v[0], v[1], v[2]) for n, v in self.t.items()))
 
     def issue(self, n, kind, bad):
         if self.live(n):
@@ -51,6 +54,9 @@ class Table:
         self.fresh = False
         bad, f = [], op.split(',')
         d = dict(kv.split('=', 1) for kv in det.split() if '=' in kv)
+        if f[0] == 'hv':
+            self.moved = True            # descriptors that are open on it stay valid numbers; what their calls answer is the host's business
+            return bad
         if f[0] == 'hc':
             # the host started the process without this standard stream.  What the number then denotes is the embedder's business (whatever
             # it opens first lands on that native descriptor): nothing is demanded of calls on it; the OTHER numbers must mean what they always mean
@@ -69,6 +75,8 @@ class Table:
             call, x = 'fd_close', int(f[1])
         else:
             call, x = f[1], int(f[2])
+            if call == 'fd_readdir_moved':
+                self.moved = True
         # path_rename takes two directory handles: the second one is the pre-open (3)
         if any(self.limbo(y) for y in ([x, 3] if call.startswith('path_rename') else [x])):
             if errno == 0 and 'fd' in d:
@@ -87,7 +95,7 @@ class Table:
                 b2 = []
                 self.issue(int(d['fd']), 'dir' if f[0] == 'od' else 'file', b2)
                 bad += [(call, xc, 'alias', t) for _, t in b2]
-            elif f[0] in ('of', 'od'):
+            elif f[0] in ('of', 'od') and not (f[0] == 'od' and self.moved):      # ("sub" is gone once the host has moved it away)
                 bad.append((call, xc, 'errno=%d' % errno, 'path_open below the live pre-open failed with %d' % errno))
         elif f[0] == 'cf':
             self.t[x][1] = 'limbo'
@@ -96,8 +104,12 @@ class Table:
                 bad.append((call, xc, 'errno=%d' % errno, 'fd_close of live descriptor %d returned %d' % (x, errno)))
             else:
                 self.t[x][1] = False
-        elif call == 'fd_readdir' and errno == 0:
+        elif call in ('fd_readdir', 'fd_readdir_moved') and errno == 0:
             self.t[x][2] = True
+        elif call in ('fd_readdir', 'fd_readdir_moved') and self.t[x][2] is True:
+            # a listing that HAD a stream failed to restart: the implementation may be in another internal state than after a listing that never
+            # started (the stream may have been released) - kept apart so that what follows is explored from here too
+            self.t[x][2] = 'restart-failed'
         elif call == 'fd_write' and x in (1, 2):
             if errno != 0 or d.get('nw') != '3' or d.get('host') != '414243':
                 bad.append((call, 'stdstream', 'lost', 'fd_write to live descriptor %d: errno=%d %s; the host stream did not receive "ABC"' % (x, errno, det)))
@@ -113,10 +125,13 @@ class Table:
 
     def alphabet(self, uses):
         issued = sorted(n for n in self.t if n > 4)
-        xs = [0, 1, 2, 3, 4] + issued + [max(self.t) + 1, 1000, 0xFFFFFFFF]
+        # never-issued numbers: the next one, far ones, and numbers that equal a live one modulo 2^16
+        xs = [0, 1, 2, 3, 4] + issued + [max(self.t) + 1, 1000, 0xFFFFFFFF, 65536 + 3] + [65536 + n for n in issued[:1]]
         ops = []
         if self.fresh:
             ops += ['hc,0', 'hc,1']          # only as the first operation of a history
+        if not self.moved:
+            ops.append('hv,0')               # the host moves the directory "sub" away (once per history)
         for ns in (0, 1):
             ops += ['of,%d' % ns, 'od,%d' % ns]
             if not self.failed_open:
@@ -125,7 +140,7 @@ class Table:
             ops += ['cf,%d,%d' % (x, ns) for x in issued + [max(self.t) + 1]]      # fd_close while the host's close() fails
             for c in uses:
                 for x in xs:
-                    if c == 'fd_readdir' and x in (0, 1, 2) and (self.live(x) or self.limbo(x)):
+                    if c in ('fd_readdir', 'fd_readdir_moved') and x in (0, 1, 2) and (self.live(x) or self.limbo(x)):
                         continue    # design guard: live standard streams are not used as directory handles
                     ops.append('u,%s,%d,%d' % (c, x, ns))
         return ops
@@ -135,7 +150,8 @@ def describe(line):
     out = []
     for op in line.split():
         f = op.split(',')
-        if f[0] == 'hc': out.append('[host started without its standard stream %s]' % f[1])
+        if f[0] == 'hv': out.append('[host moves the directory "sub" away]')
+        elif f[0] == 'hc': out.append('[host started without its standard stream %s]' % f[1])
         elif f[0] == 'om': out.append('%s.path_open(3,"zz" (missing),0)' % NSNAME[int(f[1])])
         elif f[0] == 'of': out.append('%s.path_open(3,"f",CREAT,RW)' % NSNAME[int(f[1])])
         elif f[0] == 'od': out.append('%s.path_open(3,"sub",DIRECTORY)' % NSNAME[int(f[1])])
